@@ -18,7 +18,7 @@ def pipeline_cases(run):
     nlong = run.n(1, 6)
     nlate = run.n(10, 120)
     for it in range(run.n(36, 900) + nlong + nlate):
-        topo = rng.choice(['chain', 'chain', 'tee', 'rejoin', 'join', 'topics'])
+        topo = rng.choice(['chain', 'chain', 'tee', 'rejoin', 'join', 'topics', 'tee-late'])
         nf = rng.randint(6, 18)
         long_join = it < nlong
         late_sub = nlong <= it < nlong + nlate
@@ -60,7 +60,17 @@ def pipeline_cases(run):
             case.update(drop=sorted(drop), empty_at=sorted(empty_at), remap=remap)
         else:
             a0, a1, a2, a3 = pipes.addr(0), pipes.addr(1), pipes.addr(2), pipes.addr(3)
-            if topo == 'tee':       # src -> ra -> sa ; src -> rb -> sb
+            if topo == 'tee-late':  # src -> view2 ; src -> view, both required; 'view' comes up seconds after everybody else
+                #  (names in a prefix relation: the other consumer being connected is not the same as this one being connected)
+                names = rng.choice([('view', 'view2'), ('cam', 'cam-b'), ('a', 'ab')])
+                specs = [dict(id='src', kind='src', n=nf, outputs=a0[0], outputs_required='%s, %s' % names),
+                         dict(id=names[1], kind='sink', sources=a0[1], work=W()),
+                         dict(id=names[0], kind='sink', sources=a0[1], work=W(), late=True)]
+                allq = list(range(nf))
+                ref = {names[0]: allq, names[1]: allq}
+                late_start = (names[0], rng.choice([0.3, 1.0, 2.5, 4.0]))
+                case.update(names=list(names), late_start=late_start[1])
+            elif topo == 'tee':       # src -> ra -> sa ; src -> rb -> sb
                 skipa = set(rng.sample(range(nf), rng.randint(0, 2)))
                 specs = [dict(id='src', kind='src', n=nf, outputs=a0[0], outputs_required='ra, rb'),
                          dict(id='ra', kind='relay', sources=a0[1], outputs=a1[0], outputs_required='sa', work=W(), skip=skipa),
@@ -95,6 +105,13 @@ def pipeline_cases(run):
         join_ms = (0, 400) if late_sub else rng.choice([(0, 0), (0, 0), (0, 40), (30, 120)])
         case.update(sub_join_ms=join_ms)
         p = pipes.Pipeline(specs, seed=seed, delay_ms=delay, sub_join_ms=join_ms)
+        if topo == 'tee-late':
+            t_start = p.world.now + int(late_start[1] * 1e9)
+            def hook(world, p=p, late_start=late_start, st=[False], t_start=t_start):
+                if not st[0] and world.now >= t_start:
+                    st[0] = True
+                    p.start(late_start[0])
+            p.world.on_step = hook
         rec = p.run(600, max_steps=400000)
         n += 1
         run.count('pipe:%s' % topo)
